@@ -48,6 +48,31 @@ example : ∃ res, checkProof (Toy.rules []) ⟨true, false, 0⟩ 5 exPrf = .ok 
     res.th = some ⟨[1, 3, 4], 2⟩ ∧ res.trace.length = 2 := by
   refine ⟨_, rfl, ?_, ?_⟩ <;> rfl
 
+/-- An item is accepted only at the position path its id spells (the guard `seq.id.id != pos`). -/
+theorem accepted_id_is_position (R : Rules) (cfg : Cfg) (fuel : Nat) (root : List Item) (pos : List Nat)
+    (seq : Item) (out : Out) (h : checkItem R cfg fuel root pos seq = .ok out) : seq.id = posId pos := by
+  cases fuel with
+  | zero => simp [checkItem] at h
+  | succ fuel =>
+    simp only [checkItem] at h
+    split at h
+    · simp at h
+    · rename_i hid; simpa using hid
+
+/-- Hence one item (a `ProofItem` object sitting at two places of the proof object has one id) cannot
+be accepted at two different walked positions, whatever the state of the proof at either moment. -/
+theorem shared_item_refused (R : Rules) (cfg : Cfg) (f1 f2 : Nat) (root1 root2 : List Item)
+    (pos1 pos2 : List Nat) (seq : Item) (o1 o2 : Out) (hne : pos1 ≠ pos2)
+    (h1 : checkItem R cfg f1 root1 pos1 seq = .ok o1) (h2 : checkItem R cfg f2 root2 pos2 seq = .ok o2) :
+    False := by
+  have e1 := accepted_id_is_position R cfg f1 root1 pos1 seq o1 h1
+  have e2 := accepted_id_is_position R cfg f2 root2 pos2 seq o2 h2
+  exact hne (posId_injective (e1.symm.trans e2))
+
+/- the item with id 2 of the audit's circular proof is refused inside block 0 (position 0.0) -/
+example : checkItem (Toy.rules []) ⟨true, false, 0⟩ 3 [] [0, 0]
+    ⟨[2], "verif_id", .none, [[0]], none, none⟩ = .error (.check .idMismatch) := rfl
+
 /-- The trace covers the proof object: every item reached through `subproof` blocks from a
 top-level item (empty lines excepted) has an event at its position with its rule and, if it states
 a sequent, that sequent.  With `accepted_justified`: every stated sequent of such an item is no
